@@ -6,9 +6,9 @@
    the oracle argument u_i; "P[upper level] = t" is stated as: the output is the upper
    level exactly for u_i <= t (resp. < t for the binary quantizer), the uniform law on
    [0,1) being the definition of jax.random.uniform. *)
-From Coq Require Import ZArith QArith Qabs Qminmax List Bool.
+From Coq Require Import ZArith QArith Qcanon Qabs Qminmax List Bool.
 From FV Require Import Common.CMonoid Common.NanQ Common.NanVec Common.KeyPath Common.QVec Common.WMean gen.Gen_compression gen.Gen_walsh_hadamard
-  gen.Gen_tree_util Model.C07_Model Proofs.C07_Proofs Model.C11_Model Proofs.C11_Proofs Proofs.C11_Quant Proofs.C11_Agg Proofs.C11_Gen.
+  gen.Gen_tree_util Model.C07_Model Proofs.C07_Proofs Model.C11_Model Proofs.C11_Proofs Proofs.C11_Quant Proofs.C11_Agg Proofs.C11_Gen Proofs.C18_Proofs Proofs.C11_Rot Proofs.C11_RotNorm.
 Import ListNotations.
 Local Open Scope Q_scope.
 
@@ -194,22 +194,41 @@ Theorem C11_terngrad_aggregate : forall n e (cl : list tclient),
     vclose e (wmean_batch n (map tern_client_ref cl)) v.
 Proof. exact tern_agg_spec. Qed.
 
-(* any quantiser whose per-client trees are finite and of equal size (in particular the rotated
-   pipelines, which return finite leaves whenever defined): aggregate = weighted mean.
-   PARTIAL for the rotated aggregators: that the pipeline is defined and size-preserving for every
-   input, and the squared-norm error bound, are not proved (see coverage/C11.md) *)
-Theorem C11_rotated_aggregate_is_wmean_partial :
-  (forall (qcl : list (list (list Q) * Q)) n, qcl <> [] -> Forall (fun c => length (concat (fst c)) = n) qcl ->
-     exists v, aggregate (lift_clients qcl) = Some (vlift v) /\
-               v =v= wmean_batch n (map (fun c => (snd c, concat (fst c))) qcl)) /\
-  (forall signs cl q,
-     all_some (map2 (fun c s => option_map (fun t => (t, snd c)) (drive_tree s (fst c))) cl signs) = Some q ->
-     drive_agg signs cl = aggregate q) /\
-  (forall L signs cl us q,
-     all_some (map2 (fun c u => option_map (fun t => (t, snd c)) (rusq_tree L signs (fst c) u)) cl us) = Some q ->
-     rusq_agg L signs cl us = aggregate q) /\
-  (forall f s x y, through_rotation f s x = Some y -> exists yq, y = lift yq).
-Proof. exact (conj aggregate_finite_is_wmean (conj drive_agg_unfold (conj rusq_agg_unfold through_rotation_finite))). Qed.
+(* rotated aggregators (rotated uniform, DRIVE): for leaves the Q model can rotate (non-empty, padded size 2^K with K even
+   -- sqrt(2^K) rational -- and K <= 56) the per-client pipelines are DEFINED and SIZE-PRESERVING, and the aggregator returns
+   the weighted mean of the per-client pipeline outputs qcl (same weights, same leaf sizes) *)
+Theorem C11_rotated_aggregates_are_wmean :
+  (forall n (cl : list (list (list Q) * Q)) (signs : list (list (list bool))),
+     cl <> [] -> sizes_ok n cl ->
+     Forall2 (fun c sg => Forall2 (fun leaf (_ : list bool) => rot_leaf_ok (length leaf)) (fst c) sg) cl signs ->
+     exists (qcl : list (list (list Q) * Q)) v,
+       drive_agg signs (lift_clients cl) = Some (vlift v) /\
+       v =v= wmean_batch n (map (fun c => (snd c, concat (fst c))) qcl) /\
+       Forall2 (fun c q => snd q = snd c /\ Forall2 (fun l l' => length l' = length l) (fst c) (fst q)) cl qcl) /\
+  (forall n L (signs : list (list bool)) (cl : list (list (list Q) * Q)) (us : list (list (list Q))),
+     (2 <= L)%Z -> cl <> [] -> sizes_ok n cl ->
+     Forall2 (fun c u => length signs = length (fst c) /\ Forall2 rusq_leaf_ok (fst c) u) cl us ->
+     exists (qcl : list (list (list Q) * Q)) v,
+       rusq_agg L signs (lift_clients cl) us = Some (vlift v) /\
+       v =v= wmean_batch n (map (fun c => (snd c, concat (fst c))) qcl) /\
+       Forall2 (fun c q => snd q = snd c /\ Forall2 (fun l l' => length l' = length l) (fst c) (fst q)) cl qcl).
+Proof. exact (conj drive_agg_is_wmean rusq_agg_is_wmean). Qed.
+
+(* squared-norm error of the rotated pipelines.  PROVED (per client leaf, any finite length-preserving quantiser f
+   in the rotated space -- uniform or DRIVE): the error after the inverse rotation is at most the error f makes in the
+   rotated space, sum (w - x)^2 <= sum (f(y) - y)^2 (isometry of H D / sqrt d + cropping; uses C18 linearity,
+   involution, Parseval over Qc).
+   MISSING for the aggregate-level bound "|| aggregate - exact weighted mean ||^2 <= max_c || f(y_c) - y_c ||^2":
+   the convexity lemma  sumsq (wmean_batch n cl) <= max_c sumsq (snd c)  for weights >= 0 with positive total
+   (Jensen for the squared norm; Common/WMean.v only has the coordinate-wise hull / error lemmas), and the assembly
+   sum_{j<d} (f(y)_j - y_j)^2 <= d * step^2 from the coordinate-wise C11_usq_neighbouring_levels. *)
+Theorem C11_rotated_aggregate_error_bound_partial : forall f (fq : list Q -> list Q) (s : list bool) (xq : list Q),
+  rot_leaf_ok (length xq) -> length s = length xq ->
+  (forall y, length y = (2 ^ rdim (length xq))%nat -> f (lift y) = lift (fq y) /\ length (fq y) = length y) ->
+  exists y w, qrot s xq = Some y /\ through_rotation f s (lift xq) = Some (lift w) /\ length w = length xq /\
+    Qcle (RingVec.sumsq (Q2Qc 0) Qcplus Qcmult (RingVec.vsub Qcminus (q2c w) (q2c xq)))
+         (RingVec.sumsq (Q2Qc 0) Qcplus Qcmult (RingVec.vsub Qcminus (q2c (fq y)) (q2c y))).
+Proof. exact through_rotation_error. Qed.
 
 (* keys: the split path used for (round t, client c, leaf l) determines (t, c, l), for all
    four aggregators and all histories; rotation keys of the rotated quantizer are distinct
@@ -226,6 +245,14 @@ Proof.
   exact (conj usq_key_inj (conj usq_key_inj (conj drive_key_inj (conj rusq_key_inj
         (conj rusq_rot_key_inj (conj rusq_rot_vs_quant usq_state_not_key)))))).
 Qed.
+
+(* the keys of one round (call order of the harness' `draw-count` / `keys-reused` oracle keys): exactly one per
+   (client, leaf) and pairwise distinct, for all four aggregators *)
+Theorem C11_round_keys : forall t clients leaves,
+  length (round_keys usq_key t clients leaves) = (clients * leaves)%nat /\
+  (NoDup (round_keys usq_key t clients leaves) /\ NoDup (round_keys tern_key t clients leaves) /\
+   NoDup (round_keys drive_key t clients leaves) /\ NoDup (round_keys rusq_key t clients leaves)).
+Proof. exact (fun t c l => conj (round_keys_length usq_key t c l) (round_keys_all_distinct t c l)). Qed.
 
 (* after r rounds the counter is r times the documented per-round formula
    a * log2(base) + b  (the triples are translated from compression.py on this run) *)
@@ -250,6 +277,21 @@ Proof.
   all: repeat constructor; try discriminate; reflexivity.
 Qed.
 
+(* the hypotheses of the aggregate theorems are satisfiable by non-trivial instances *)
+Example C11_hypotheses_examples :
+  rot_leaf_ok 3 /\ rot_leaf_ok 35 /\ rot_leaf_ok 16 /\ ~ rot_leaf_ok 2 /\
+  rusq_leaf_ok [1; 2; 3] [0; 1 # 2; 1 # 4; 3 # 4] /\
+  sizes_ok 4 [([[1; 2; 3]; [4]], 1); ([[0; 0; 1]; [5]], 2)] /\
+  tclient_ok 3 ([([1; -1], [0; 1 # 2], 1); ([3], [1 # 4], 0)], 2) /\
+  (exists v, drive_agg [[[true; false; true]]] (lift_clients [([[1; 2; 3]], 1)]) = Some (vlift v)).
+Proof.
+  unfold rot_leaf_ok, rusq_leaf_ok, sizes_ok, tclient_ok.
+  repeat split; try (vm_compute; reflexivity); try (vm_compute; discriminate); try (repeat constructor; fail).
+  - intros (_ & _ & H). vm_compute in H. discriminate.
+  - repeat constructor; vm_compute; try reflexivity; discriminate.
+  - exists [7 # 6; 7 # 6; 7 # 2]. vm_compute. reflexivity.
+Qed.
+
 Print Assumptions C11_usq_neighbouring_levels.
 Print Assumptions C11_usq_unbiased.
 Print Assumptions C11_grid_constant_zero_identity.
@@ -263,6 +305,8 @@ Print Assumptions C11_translated_quantizers_are_model.
 Print Assumptions C11_translated_keys_are_model.
 Print Assumptions C11_keys_prefix_free.
 Print Assumptions C11_terngrad_aggregate.
-Print Assumptions C11_rotated_aggregate_is_wmean_partial.
+Print Assumptions C11_rotated_aggregates_are_wmean.
+Print Assumptions C11_rotated_aggregate_error_bound_partial.
+Print Assumptions C11_round_keys.
 Print Assumptions C11_keys_distinct.
 Print Assumptions C11_bits_formula.
